@@ -478,6 +478,12 @@ class Gen:
                      (f"{lo + hi} - {nam}", lo, hi),
                      (f"{nam} * {nam}", 0 if lo <= 0 <= hi else
                       min(lo * lo, hi * hi), max(lo * lo, hi * hi))]
+            if "d_i" in self.vars and "d1_i" in self.vars:
+                # names that collide with the analysis' helper symbols
+                forms.append((f"min(max({nam} + d_i + d1_i, {lit(lb)}), "
+                              f"{lit(ub)})", lb, ub))
+                forms.append((f"min(max({nam} + d_i, {lit(lb)}), "
+                              f"{lit(ub)})", lb, ub))
             if "ia" in self.vars and lo >= 1 and hi <= 6:
                 forms.append((f"ia({nam})", 1, 6))
                 forms.append((f"ia({nam})", 1, 6))
